@@ -38,15 +38,23 @@ DOCS = ["a", "*a* `b`", "> q", "- l", "[x](y)", "![i](j)", "|a|\n|-|", "[r]\n\n[
         "a\n# h\nb\n> q\nc\n- l\nd\n***\ne\n```\nf\n```\ng\n<div>\n\n[r]: /u\n1. o\nz\n|t|\n|-|\n",
         # inline scanners with per-parse scratch state: backtick run cache, delimiter stacks, link-label skip cache
         "``a `b` c `d` *e **f* g** [h `i](j) ![k][",
-        "``y `x` *z* [w](v) **_a_** [[b](c)](d) ~~e~"]
+        "``y `x` *z* [w](v) **_a_** [[b](c)](d) ~~e~",
+        # look-ahead nesting close to a (lowered) maxNesting; fenced blocks with info strings
+        "[[[[a](b)]]] [[[[[c]]]]](d)",
+        "```py\nx\n```\n\n~~~rb\ny\n~~~\n",
+        "```js a=1\nz\n```\n"]
 PRESET = ("js-default", None)
-SCENARIOS = ["fresh", "reconf-disable", "reconf-enable", "reconf-push", "reconf-ruler2", "warm"]
+SCENARIOS = ["fresh", "reconf-disable", "reconf-enable", "reconf-push", "reconf-ruler2", "warm", "warm-mn6"]
 
 
 def make_md(scenario):
     from markdown_it import MarkdownIt
 
-    md = MarkdownIt(PRESET[0], PRESET[1])
+    opts = dict(PRESET[1] or {})
+    if scenario.endswith("-mn6"):
+        opts["maxNesting"] = 6
+        scenario = scenario[:-4]
+    md = MarkdownIt(PRESET[0], opts or None)
     if scenario == "fresh":
         return md
     md.render("*w* `x` [l](m) <http://n.o>\n\n> - y\n\n|a|\n|-|\n")
@@ -221,7 +229,7 @@ def instrument(md, plan, counts):
 
 REENTRY_OUTER = ("# h\n\n> *a* [l](u) `c`\n\n- x\n- y\n\n```py\nz\n```\n\n![i](j) &amp; \\*\n\n[r]\n\n[r]: /u\n\n|a|\n|-|\n\n"
                  "``a `b` c `d` *e **f* g** [h `i](j)\n")
-REENTRY_INNER = ["*n* [m](o)\n\n> - p\n", "[r]\n\n[r]: /other\n", "```\nf\n```\n\n![i2](j2)", "``y `x` *z* [w](v) **_a_** [[b](c)](d)"]
+REENTRY_INNER = ["*n* [m](o)\n\n> - p\n", "[r]\n\n[r]: /other\n", "```rb\nf\n```\n\n![i2](j2)", "``y `x` *z* [w](v) **_a_** [[b](c)](d)"]
 
 
 def _mk_instrumented(preset):
@@ -300,10 +308,10 @@ def job_lemma_docs(job):
 
 
 # ---- plan (runs in the pristine master) --------------------------------------------------------------------
-QUICK_PAIRS = [("fresh", 1, 4, "mixed"), ("fresh", 4, 5, "mixed"), ("fresh", 8, 9, "mixed"), ("fresh", 2, 3, "line"),
-               ("fresh", 7, 6, "line"), ("reconf-enable", 1, 9, "mixed"), ("reconf-push", 1, 3, "line"),
-               ("reconf-disable", 4, 1, "line"), ("reconf-ruler2", 1, 2, "line"), ("warm", 10, 11, "line"),
-               ("warm", 11, 10, "line"), ("fresh", 10, 11, "line")]
+QUICK_PAIRS = [("fresh", 1, 4, "mixed"), ("fresh", 4, 5, "mixed"), ("fresh", 8, 9, "mixed"), ("fresh", 7, 6, "line"),
+               ("reconf-enable", 1, 9, "line"), ("reconf-push", 1, 3, "line"), ("reconf-disable", 4, 1, "line"),
+               ("reconf-ruler2", 1, 2, "line"), ("warm", 10, 11, "line"), ("fresh", 11, 10, "line"),
+               ("warm-mn6", 12, 12, "line"), ("warm", 13, 14, "line")]
 
 
 def bounds(tier):
@@ -493,7 +501,7 @@ def run_shard(sh, acc):
             for i in range(1, N + 1):
                 for d in list(REENTRY_INNER) + suspects:
                     for kind in ("render", "parse"):
-                        for first in (True, False):
+                        for first in ((True, False) if (th or preset == "commonmark") else (True,)):
                             rj.append((preset, json.loads(site), i, d, kind, first, ref_outer, ref_inner[d]))
         for idx, res in fork_map(job_reentry, rj, NPROC):
             acc.case()
